@@ -80,6 +80,7 @@ const (
 	KDeliverTo        // deliver the oldest deliverable message addressed to stack (B mod #stacks)
 	KDropCross        // every in-flight message that crosses the current partition is lost (a partition that drops instead of holding)
 	KTimeoutPart      // the timers of all live stacks in partition group (B mod 3) fire
+	KDropAll          // every in-flight message is lost
 	kCount
 )
 
@@ -742,6 +743,9 @@ func (cl *Cluster) Apply(s Step) {
 				cl.Faults["drop"]++
 			}
 		}
+	case KDropAll:
+		cl.Faults["drop"] += len(cl.Pool)
+		cl.Pool = nil
 	case KTimeoutPart:
 		for _, st := range cl.liveStacks() {
 			if cl.Part[st.Idx] == mod(s.B, 3) {
